@@ -544,6 +544,9 @@ func (e *Engine) checkEvents(s *Sys, class string) *Violation {
 		if g.Foreign {
 			return e.v(s, class, "event %s mentions a component ID that was never registered as live type", fmtEv(&g.MEv))
 		}
+		if g.RetainedChanged {
+			return e.v(s, class, "when event %s arrived, the relation ID that the previous event points to no longer was what it was at that event's delivery", fmtEv(&g.MEv))
+		}
 		if g.IDsDup || g.AddedIDs != g.Added || g.RemovedIDs != g.Removed {
 			return e.v(s, class, "event %s: AddedIDs/RemovedIDs (%v/%v) disagree with the Added/Removed masks", fmtEv(&g.MEv), listOf(g.AddedIDs), listOf(g.RemovedIDs))
 		}
